@@ -80,6 +80,7 @@ theorem blank_lines_ignored (a s rest : Bytes) (ha : a = [] ∨ a.getLast? = som
   contentLines_insert_blank a s rest ha hs hblank
 
 example : ∀ x ∈ b " \t,\r", isSep x = true := by decide +kernel
+example : cleanLine (b "DIMENS -- size") = cleanLine (b " \tDIMENS\r") ∧ (∀ x ∈ b "DIMENS -- size", x ≠ 10) := by decide +kernel
 example : cleanLine (b " \t -- only a comment") = [] ∧ (b "DIMENS\n").getLast? = some 10 := by decide +kernel
 example : contentLines (b "DIMENS\n \t -- c\n\n 10 10 3 /\n") = [b "DIMENS", b "10 10 3 /"] := by decide +kernel
 
